@@ -28,12 +28,13 @@ def run(ctx, envs=(None,)):
         res = []
         for env in envs:
             sfile = os.path.join(ctx.work, "str-%s-%s.json" % (fam, (env or "default").replace("=", "")))
-            args = ["str", "-dump", r["dump"], "-fam", fam, "-out", sfile, "-seed", ctx.seed, "-m", m, "-workers", max(2, vf.NPROC // 2)]
+            dfile = sfile[:-5] + ".dg"
+            args = ["str", "-dump", r["dump"], "-fam", fam, "-out", sfile, "-seed", ctx.seed, "-m", m, "-workers", max(2, vf.NPROC // 2), "-digests", dfile]
             if env:
                 args += ["-env", env]
-            vf.vh(ctx, args, timeout=3000)
+            vf.vh(ctx, args, timeout=3000, env=(dict(x.split("=", 1) for x in env.split(",")) if env else None))
             s = json.load(open(sfile))
-            s["fam"], s["env"] = fam, env
+            s["fam"], s["env"], s["digests"] = fam, env, dfile
             s["tlc"] = {"distinct": r["distinct"], "generated": r["generated"]}
             s["constants"] = {"Fam": fam, "MaxLen": ml, "Alphabet": ALPHA[fam]}
             res.append(s)
